@@ -86,6 +86,18 @@ func readGenCases(path string) ([]GenCase, error) {
 // Fixture: the declared leaves of the universe.
 const fixtureLocal = `package p
 
+import (
+	"m/ext"
+	ext2 "m/other/ext"
+)
+
+// Both has fields from two imported packages that are both called ext.
+type Both struct {
+	A ext.SE
+	B *ext2.SE2
+	C []ext2.SE2
+}
+
 type MyInt int
 
 type MyString string
